@@ -22,6 +22,7 @@ type PropSpec struct {
 	Undecided  []string
 	Assumes    []string
 	Bounded    []string // names of bounded stand-ins (thorough tier), see bounded.go
+	Generate   []string // "c13 <worker> <HeaderConst>": pinned posts derived mechanically from the code's header constants
 	Replay     string   // replay oracle family
 	Meta       []string // meta-theorems relied upon
 }
@@ -72,6 +73,9 @@ func loadProp(id string) (*PropSpec, error) {
 			continue
 		case "replay":
 			ps.Replay = rest
+			continue
+		case "generate":
+			ps.Generate = append(ps.Generate, rest)
 			continue
 		}
 		lines = append(lines, rawLine{l, file, i + 1})
@@ -159,6 +163,17 @@ func runCheck(e *Engine, id, tier string, dir string) (*checkResult, error) {
 		return nil, err
 	}
 	res := &checkResult{prop: ps}
+	for _, g := range ps.Generate {
+		f := strings.Fields(g)
+		if len(f) == 3 && f[0] == "c13" {
+			fc, err := e.c13Pinned(f[1], f[2])
+			if err != nil {
+				res.genErrs = append(res.genErrs, fmt.Sprintf("gen/rddetector.%s: header %s: %v", f[1], f[2], err))
+				continue
+			}
+			ps.Blocks = append(ps.Blocks, fc)
+		}
+	}
 	// group blocks per function
 	byFunc := map[string][]*FuncContract{}
 	var order []string
